@@ -134,6 +134,24 @@ def impl(case):
                 out['reflag_' + tag] = fitcase.info_out(fitter.fit(obj))
                 out['reflag_' + tag + '_fresh'] = fitcase.info_out(fitter.fit(fitcase.make_source(dict(case['src'], flags=fl))))
         out['n_data'] = int(fitcase.make_source(case['src']).n_data)
+        # plot-only bands turned into unused ones; and, for distance-dependent packages, the same comparisons on a Fitter made with remove_resolved=True
+        nine0 = dict(case['src'], flags=[0 if f == 9 else f for f in case['src']['flags']])
+        has9 = 9 in case['src']['flags']
+        if has9:
+            out['nine_as_zero'] = fitcase.info_out(fitter.fit(fitcase.make_source(nine0)))
+        if case['mode'] == '3d':
+            try:
+                import numpy as np
+                frr = fitcase.make_fitter(d, case, remove_resolved=True)
+                out['rr_base'] = fitcase.info_out(frr.fit(fitcase.make_source(case['src'])))
+                for k in ('hostile', 'conf0', 'conf0_as_flag0'):
+                    if k in case['variants']:
+                        out['rr_' + k] = fitcase.info_out(frr.fit(fitcase.make_source(case['variants'][k])))
+                if has9:
+                    out['rr_nine_as_zero'] = fitcase.info_out(frr.fit(fitcase.make_source(nine0)))
+                out['rr_any'] = bool(np.any(np.asarray(frr.models.extended)))
+            except Exception as e:
+                out['rr_exc'] = '%s: %s' % (type(e).__name__, e)
     return out
 
 
@@ -228,6 +246,19 @@ def judge(case, im, mo):
         fail.append('unused: values carried by flag-0/9 bands change the fit')
     if 'conf0' in im and not _same(im['conf0'], im['conf0_as_flag0']):
         fail.append('conf0: a limit with confidence 0 is not equivalent to flag 0')
+    if 'nine_as_zero' in im and not _same(base, im['nine_as_zero']):
+        fail.append('unused: flagging the plot-only (9) bands as unused (0) changes the fit')
+    if 'rr_exc' in im:
+        fail.append('raised: remove_resolved=True raised %s' % im['rr_exc'])
+    if 'rr_base' in im:
+        tags.append('rr-mask-nonempty=%s' % im.get('rr_any'))
+        tags.append('rr-changes-fit=%s' % (not _same(base, im['rr_base'])))
+        if 'rr_hostile' in im and not _same(im['rr_base'], im['rr_hostile']):
+            fail.append('unused: with remove_resolved=True, values carried by flag-0/9 bands change the fit')
+        if 'rr_nine_as_zero' in im and not _same(im['rr_base'], im['rr_nine_as_zero']):
+            fail.append('unused: with remove_resolved=True, a plot-only (9) band decides which models are removed: flagging it 0 changes the fit')
+        if 'rr_conf0' in im and not _same(im['rr_conf0'], im['rr_conf0_as_flag0']):
+            fail.append('conf0: with remove_resolved=True, a limit with confidence 0 is not equivalent to flag 0')
     if 'limits_changed' in im and case['mode'] == '2d' and finite:
         a, b = _by_name(base), _by_name(im['limits_changed'])
         for n in a:
